@@ -210,6 +210,13 @@ Unicode1 ==
                   [id |-> "own", methods |-> << Sh(NameInstantiate, "instantiate", "ok"), Sh(<<"é">>, "exec", "ok"),
                                                 Sh(<<"b","_","é","a">>, "query", "err"), Sh(<<"a","_","é">>, "sudo", "ok") >>] >>]
 
+(* degenerate but legal programs: an interface without any handler next to a contract that has nothing but its instantiate
+   handler; and a contract whose handlers have one very long name each *)
+Empty1 ==
+    [id |-> "E1", family |-> "shared", overrides |-> {},
+     parts |-> << [id |-> "i1", methods |-> <<>>],
+                  [id |-> "own", methods |-> << Sh(NameInstantiate, "instantiate", "ok") >>] >>]
+
 (* programs that override entry points (C06, C04): one handler of every kind, some kinds served by the user's own functions *)
 OvProg(id, ov) ==
     [id |-> id, family |-> "override", overrides |-> ov,
@@ -256,7 +263,7 @@ PermTwin(p) ==
 RawSeq ==      \* all programs of this instance, as a sequence
        [gi \in 1..Len(Groups) |-> CorpusProg(gi)]
     \o [i \in 1..Len(SmallFs) |-> SmallProgOf(SmallFs[i], "m" \o ToString(i))]
-    \o <<Shared1, Shared2, Shared3, Nested1, Unicode1, Wide1, Defaults1, Keywords1, Generic1, Generic2, PermTwin(Shared1), PermTwin(CorpusProg(1))>> \o OverrideProgs \o CollideProgs
+    \o <<Shared1, Shared2, Shared3, Nested1, Unicode1, Empty1, Wide1, Defaults1, Keywords1, Generic1, Generic2, PermTwin(Shared1), PermTwin(CorpusProg(1))>> \o OverrideProgs \o CollideProgs
 
 (* the table of elaborated programs: the static semantics applied once per program *)
 ElabSeq == TLCEval([i \in 1..Len(RawSeq) |-> Elab(RawSeq[i])])
